@@ -125,6 +125,15 @@ Definition clear_children (n : node) : node := match n with Comp k f x _ => Comp
 
 Definition who_of (promoted : bool) (if_not : who) (if_promoted : who) : who := if promoted then if_promoted else if_not.
 
+(* two views of one emptied container object (they may differ in the implicit flags of their last adoption) *)
+Definition same_obj (a b : node) : bool :=
+  match a, b with
+  | Comp k f _ [], Comp k' f' _ [] =>
+    (ckind_eqb k k' && (match f_prio f, f_prio f' with None, None => true | Some x, Some y => x =? y | _, _ => false end)
+     && ob_eqb (f_del f) (f_del f') && ob_eqb (f_new f) (f_new f'))%bool
+  | _, _ => false
+  end.
+
 (* ---------- the recursive merge ---------- *)
 (* [rec] is the recursive call child.on_merge(path + [key], value) *)
 Section MergeRules.
@@ -142,7 +151,9 @@ Section MergeRules.
         match set_child cur k v with Some c => Ok c | None => Err EMerge p end
       else Err EMerge p
     | Some c0 =>
-      let al := path_in (p ++ [k]) aliases in
+      (* the newer node IS the older node object (left behind by !clear) - recognised by its path and, because a list that protects
+         elements re-indexes them (an alias path may then name another element), by what that object looks like: the emptied container *)
+      let al := if path_in (p ++ [k]) aliases then same_obj c0 v else false in
       let c := if al then v else c0 in   (* same object: it carries the flags of its last adoption (by the newer parent) *)
       do nr <- rec (p ++ [k]) c v;
       let '(n, w0) := nr in
